@@ -108,8 +108,8 @@ def cases(tier, seed):
                                 "nseeds": 1 if tier == "quick" else 3,
                                 "fixed": {"m": m_, "n": n_, "R": R_, "P": P_, "r": min(m_, n_), "kind": "simple", "n_iter": it_, "n_passes": 2 + it_, "colstruct": cs_}})
     for routine in ("rand_qsvd", "pass_eff_qsvd"):
-        for j, st_ in enumerate(("diag", "upper_tri", "lower_tri", "unit_identity", "real_only", "herm_indef", "unitary", "int", "sparse", "axis2")):
-            for t_, (m_, n_, R_, P_) in enumerate(((6, 6, 3, 1), (6, 6, 4, 4), (8, 5, 2, 0), (5, 8, 3, 6), (7, 7, 7, 0))):
+        for j, st_ in enumerate(("diag", "upper_tri", "lower_tri", "unit_identity", "real_only", "herm_indef", "unitary", "int", "sparse", "axis2", "nilpotent_chain", "block_offdiag")):
+            for t_, (m_, n_, R_, P_) in enumerate(((6, 6, 3, 1), (6, 6, 4, 4), (8, 5, 2, 0), (5, 8, 3, 6), (7, 7, 7, 0), (8, 8, 2, 2), (8, 8, 4, 0))):
                 if tier == "quick" and (j + t_) % 2:
                     continue
                 for it_ in (0, 2) if tier == "quick" else (0, 1, 2, 3):
@@ -215,7 +215,21 @@ def run_case(spec, ctx, R):
             # exactly structured inputs (diagonal, triangular, partial identity, real-only, Hermitian, unitary, integer, sparse pattern) under every
             # option regime: what the sketch sees is then far from generic (exact zeros, orthogonal columns, repeated values are judged by the tags)
             sc2 = cs_.split(":", 1)[1]
-            if sc2 in ("int", "sparse"):
+            if sc2 in ("nilpotent_chain", "block_offdiag"):
+                # square matrices whose POWERS lose rank (nilpotent weighted shift W J W^H, block off-diagonal [[0, B], [0, 0]]): X and X^H have the
+                # same singular values but a subspace iteration with X alone (instead of X X^H) forgets part of range(X)
+                n_ = min(m, n)
+                Jc = np.zeros((n_, n_, 4))
+                if sc2 == "nilpotent_chain":
+                    for t_, w_ in enumerate([3.0, 2.0, 1.0, 0.5][: max(1, n_ // 2)]):
+                        Jc[t_, t_ + 1, 0] = w_
+                else:
+                    h_ = n_ // 2
+                    Jc[:h_, n_ - h_:] = refq.fa(refq.randq(rng, h_, h_))
+                W_ = refq.rand_unitary(rng, n_)
+                core = refq.matmul(refq.matmul(W_, refq.qa(Jc)), refq.herm(W_))
+                Aq = refq.zeros(m, n); Aq[:n_, :n_] = core
+            elif sc2 in ("int", "sparse"):
                 Aq = gen.entries(rng, sc2, m, n)
                 if sc2 == "int":
                     Aq = Aq + refq.diagq(np.full(min(m, n), 7.0), m, n)
@@ -288,8 +302,17 @@ def run_case(spec, ctx, R):
         inner = list(_QR_LOG)
         tags = list(tags_base)
         kmax = max([q["kappa_leading"] for q in inner if np.isfinite(q["kappa_leading"])] + [1.0])
-        if any(q["deficient"] or not np.isfinite(q["kappa_leading"]) for q in inner):
+        # Attribution to the QR findings needs BOTH the observation (a sketch handed to qr_qua was rank-deficient) AND generator ground truth that
+        # this is unavoidable for the input: rank(A) < R + oversample, or a sketch wider than the matrix.  For rank(A) >= R + P <= min(m, n) a
+        # Gaussian sketch of A has full column rank with probability one - a rank-deficient inner factor is then the routine's own doing
+        # (e.g. an iteration that forgets part of range(A)) and gets no tag.
+        unavoidable = (r < Rk + P) or (Rk + P > N)
+        if unavoidable and any(q["deficient"] or not np.isfinite(q["kappa_leading"]) for q in inner):
             tags.append("inner_qr_rank_deficient")
+        nzs = [v for v in svals if v > 0]
+        cond_truth = (max(nzs) / min(nzs)) if nzs else 1.0
+        if not unavoidable and cond_truth <= 1e2:
+            kmax = 1.0                     # a well-conditioned input of sufficient rank gives well-conditioned sketches: no graded excuse either
         inner_orth = max([q["orth_err"] for q in inner if np.isfinite(q["orth_err"])] + [0.0])
         det = {"shape": [m, n], "R": Rk, **par, "rank": r, "np_seed": sd, "inner_qr": [(q["shape"], q["rank"], float(f"{q['kappa_leading']:.3g}")) for q in inner]}
         ctx.check("input_unchanged", np.array_equal(refq.fa(A), A0), site=site, tags=tags)
